@@ -87,6 +87,7 @@ func c20Hazards() []string {
 		"9223372036854775807", "9223372036854775808", "9223372036854775806.5", "1e18", "999999999999999999", "1000000000000000000", "1e15", "1e16", "123456789012345678", "18446744073709551616", "4611686018427387904", "0.1234567", "123456.7",
 		"@\"name\"", "@(x y)", "@x", "1e300", "1e-300", "1e999", "123456789012345678901234567890", ".5", "5.", "1e+5", "0.000001", "100000000000000000000", "1.5e300 * 1e300", "0x10", "011",
 		"1e", "1e+", "1 e", "x 1", "1 x", "x 1e", "\"\" \"\"", "\"a\" \"b\"",
+		"x ~ /a\\\nb/", "x ~ /a\\\rb/", "x ~ /\\\n/", "\"a\\\nb\"", "x ~ /a\\\r\nb/", "sub(/\\\n  z/, \"&\")",
 	}
 	var out []string
 	for _, e := range exprs {
